@@ -13,6 +13,7 @@ from vt.world import World, WSpec, Abort
 
 ID = 'C12'
 KINDS = ['enum']
+USES_KERNEL = True
 LEVEL = 'model_checking'
 TECHNIQUE = ('exhaustive enumeration of all configuration-edit sequences up to a depth, each replayed (edit, reloadconfig, '
              'run to quiescence) on a real daemon and compared after every step with a fresh daemon started on the same file '
